@@ -14,6 +14,43 @@ def _int(lit):
     return int(lit)
 
 
+_BITS = {"u8::BITS": 8, "u16::BITS": 16, "u32::BITS": 32, "u64::BITS": 64, "usize::BITS": 64, "u128::BITS": 128}
+
+
+def _resolve(expr, src, depth=0):
+    """Value of a constant integer expression of the Rust source: literals, `uN::BITS`, named
+    `const`s defined anywhere in the file (resolved recursively), + - * / << >> and parentheses;
+    `as <type>` casts are dropped.  Raises Fail on anything else."""
+    if depth > 8:
+        raise Fail("constant expression nests too deep: %s" % expr)
+    e = re.sub(r"\bas\s+\w+", "", expr)
+    for k, v in _BITS.items():
+        e = e.replace(k, str(v))
+    e = re.sub(r"\b(?:Self|HilbertCurve|super|crate)::", "", e)
+
+    def lit(m):
+        return str(_int(m.group(0)))
+    e = re.sub(r"\b0[xb][0-9a-fA-F_]+|\b[0-9][0-9_]*(?:_?[ui](?:8|16|32|64|128|size))?\b",
+               lambda m: str(_int(re.sub(r"_?[ui](?:8|16|32|64|128|size)$", "", m.group(0)))), e)
+
+    def name(m):
+        n = m.group(0)
+        d = re.search(r"\bconst\s+" + re.escape(n) + r"\s*:\s*\w+\s*=\s*([^;]+);", src)
+        if not d:
+            raise Fail("constant %s is not defined by a `const` item" % n)
+        return "(" + str(_resolve(d.group(1), src, depth + 1)) + ")"
+    e = re.sub(r"\b[A-Za-z_]\w*\b", name, e)
+    if not re.fullmatch(r"[0-9\s()+\-*/<>]+", e):
+        raise Fail("cannot evaluate constant expression `%s`" % expr.strip())
+    try:
+        v = eval(e.replace("/", "//"), {"__builtins__": {}}, {})
+    except Exception:
+        raise Fail("cannot evaluate constant expression `%s`" % expr.strip())
+    if not isinstance(v, int) or v < 0:
+        raise Fail("constant expression `%s` is not a natural number" % expr.strip())
+    return v
+
+
 def _table(body, name, rows, cols):
     m = re.search(r"const\s+" + name + r"\s*:\s*\[\[\w+;\s*(\d+)\];\s*(\d+)\]\s*=\s*\[(.*?)\];", body, re.S)
     if not m:
@@ -67,6 +104,12 @@ def gen_hilbert():
     if not m:
         raise Fail("encode_2d: const LUT: [u16; N] not found")
     lut2_len = _int(m.group(1))
+    m = re.search(r"let\s+mut\s+lut\s*=\s*\[0;\s*([0-9_]+)\];\s*let\s+mut\s+i\s*:\s*usize\s*=\s*0;\s*while\s+i\s*<\s*([^{]+?)\s*\{", e2)
+    if not m or _int(m.group(1)) != lut2_len:
+        raise Fail("encode_2d: LUT builder `let mut lut = [0; N]; let mut i: usize = 0; while i < BOUND {` not found")
+    lut2_built = _resolve(m.group(2), src)      # entries i < BOUND are written, the others stay 0
+    if not re.search(r"i\s*\+=\s*1;\s*\}\s*lut\s*\}", e2):
+        raise Fail("encode_2d: LUT builder does not end with `i += 1; } lut }`")
     m = re.search(r"encode_2d_slow\(zorder,\s*(\d+),\s*config\)", e2)
     if not m:
         raise Fail("encode_2d: LUT construction call encode_2d_slow(zorder, K, config) not found")
@@ -119,12 +162,14 @@ def gen_hilbert():
         i = src.find("Partition<(&[%s], W)> for HilbertCurve" % point)
         if i < 0:
             raise Fail("impl Partition<(&[%s], W)> for HilbertCurve not found" % point)
-        m = re.compile(r"const\s+MAX_ORDER\s*:\s*u32\s*=\s*(\d+);").search(src, i)
-        if not m:
-            raise Fail("MAX_ORDER for %s not found" % point)
-        if not re.compile(r"if\s+self\.order\s*>\s*MAX_ORDER\s*\{").search(src, m.end(), m.end() + 80):
-            raise Fail("guard `if self.order > MAX_ORDER` for %s not found" % point)
-        return int(m.group(1))
+        j = src.find("\nimpl", i + 1)
+        block = src[i:j if j > 0 else len(src)]
+        g = re.search(r"if\s+self\.order\s*>\s*([\w:]+)\s*\{\s*return\s+Err\(Error::InvalidOrder\s*\{\s*max:\s*([\w:]+),\s*actual:\s*self\.order,?\s*\}\);", block)
+        if not g or g.group(1) != g.group(2):
+            raise Fail("guard `if self.order > LIMIT { return Err(Error::InvalidOrder { max: LIMIT, actual: self.order }) }` for %s not found" % point)
+        # the limit may be a literal, a const of the block, or a const defined elsewhere in the file
+        local = re.search(r"\bconst\s+" + re.escape(g.group(1).split("::")[-1]) + r"\s*:\s*\w+\s*=\s*([^;]+);", block)
+        return _resolve(local.group(1) if local else g.group(1), src)
 
     # ---- segment_to_segment: the scaling factor
     seg = fn_body(src, "segment_to_segment")
@@ -151,6 +196,8 @@ def gen_hilbert():
     out += "Definition configuration : list (list N) :=\n  %s.\n\n" % _coq_rows(conf)
     out += "(* encode_2d: LUT of %d entries built from encode_2d_slow at order %d; %d-bit chunks *)\n" % (lut2_len, lut2_order, chunk_bits)
     out += "Definition lut2_len : N := %d.\n" % lut2_len
+    out += "(* the builder loop `while i < BOUND` writes the entries below BOUND, the others keep their initial 0 *)\n"
+    out += "Definition lut2_built : N := %d.\n" % lut2_built
     out += "Definition lut2_order : nat := %d.\n" % lut2_order
     out += "Definition lut2_chunk_bits : N := %d.\n" % chunk_bits
     out += "(* true: `(hilbert << (12 + shift)) | ((config & 0xfff) >> -shift)`; false: `hilbert = (hilbert << 12) | ..; hilbert >> -shift` *)\n"
@@ -177,12 +224,20 @@ PROP = dict(
     bin="c08",
     run_targets=["Run/RunC08.vo"],
     prop_targets=["Properties/C08.vo"],
-    cases=dict(quick=3000, thorough=24000),
+    cases=dict(quick=5000, thorough=40000),
     level="proof",
     harness_timeout=2400,
     rule="case kinds: encode_2d / encode_3d on a cell + its parent cell + all its in-grid face neighbours (one cell per order "
          "0..32 / 0..21 first, then random orders with corner / centre / alternating-bit / random coordinates, a high-order "
-         "family 29..32 / 18..21, and a correspondence-only family at orders 33..37 beyond MAX_ORDER); ALL cells of orders 0..4 "
+         "family 29..32 / 18..21, and a correspondence-only family at orders 33..37 beyond MAX_ORDER); STRUCTURED cells that "
+         "address the tables systematically: for every order 1..32, every 12-bit chunk position of encode_2d and every "
+         "configuration reachable before that chunk (a prefix is searched that puts the state machine there), chunk values "
+         "0xfff, 0x000 and (rotating; all of them in the thorough tier) 0xaaa, 0x555, 0xffe, 0x7ff, 0xf0f, 0x0f0, the 12 one-bit "
+         "values, with zero / all-ones / random lower levels (family encode_2d_lut_entry, counter structured_2d_lut_cases); for "
+         "every (state, octant) entry of the 96-entry 3-D table, a cell whose prefix reaches that state, at 5 orders per entry "
+         "(all 21 in the thorough tier) (family encode_3d_lut_entry); the PUBLIC entry point HilbertCurve::partition in 2-D and 3-D "
+         "on 8 random points at orders 0, 1, .., the maxima 32 / 21, 33 / 22, .., 65, 2^20, u32::MAX and random ones: accepted iff "
+         "order <= 32 / 21, otherwise InvalidOrder{max, actual} (a violation here is a checker rejection); ALL cells of orders 0..4 "
          "in 2-D and 3-D as single cases (model equality per cell + bijection/adjacency/parent checked in Coq on the implementation's "
          "table); encode_2d_slow on random (zorder, order, config); pdep_u64 (BMI2 path when the CPU has it) and "
          "pdep_u64_fallback on 8 mask families x 5 source families; segment_to_segment on 10 interval families (unit, degenerate, "
@@ -194,7 +249,7 @@ PROP = dict(
          "(pdep), min < max (segment).",
     class_names={0: "pdep", 1: "encode_2d_slow", 2: "encode_2d cell", 3: "encode_3d cell", 4: "all cells 2-D", 5: "all cells 3-D",
                  6: "segment Ok (factor used as computed)", 7: "segment panic", 8: "segment hang", 9: "encoder panic",
-                 10: "segment Ok (nextafter loop entered)"},
+                 10: "segment Ok (nextafter loop entered)", 11: "HilbertCurve::partition order guard"},
     trusted_base=[
         "axioms: none for the curve, pdep and encoder theorems (closed under the global context); the segment_to_segment "
         "theorems (C08_seg_*, C08_bits_are_valid_floats) use Flocq 4.1 and therefore the standard real-number axioms of Coq: "
@@ -231,7 +286,7 @@ MANIFEST = dict(
     design_ref="DESIGN.md §7 C08",
     note="Trusted: Coq kernel; Flocq 4.1 and the real-number axioms for the float lemmas only; the model<->code tie is the "
          "translator (tables, masks, limits, the shapes of the loops and of the two repaired expressions) plus differential runs "
-         "(3k/24k cases); PDEP hardware = fallback is tested, not proved; the nextafter loop is proved to terminate, the "
+         "(5k/40k cases); PDEP hardware = fallback is tested, not proved; the nextafter loop is proved to terminate, the "
          "model's concrete fuel bound is checked per case.",
     technique="Coq proof (induction on the order over a finite table certificate; Flocq for the float lemmas) + translator + "
               "model/implementation correspondence + exhaustive sweeps of small orders",
